@@ -746,16 +746,18 @@ example :
     select (Cfg.plain true) false t e = [1] := by decide
 
 /-- **a predicate that reads the typed value does NOT erase** (why value comparisons are outside `E`):
-`//*[. = 'a b']` on `<k> a  b </k>` with `k : xs:token` selects `k` under the schema (typed value
-`a b`, white space collapsed) and nothing without it (string value ` a  b `).  (On a tree whose
-root has element-only content the same expression RAISES under the schema — FOTY0012 — and answers
-without it: `selectValEq … = none`.) -/
+`//*[not(*)][. = 'a b']` on `<r><k> a  b </k><n>7</n></r>`: with `k : xs:token` the leaf `k` is selected
+under the schema (typed value `a b`, white space collapsed) and not without it (string value
+` a  b `); and with a numeric leaf (`n : xs:int`) the expression RAISES under the schema (XPTY0004:
+`xs:int` against a string) while it answers without it. -/
 theorem value_comparison_does_not_erase :
-    let s : Schema := { ctypes := [⟨none, .elementOnly, [.elem ⟨"k", .simple (.builtin .token), false, none⟩ []], []⟩],
-                        elements := [⟨"k", .simple (.builtin .token), false, none⟩, ⟨"r", .complex 0, false, none⟩], types := [] }
-    let t : Forest Unit := .elem () "k" [] .absent (.leaf .text " a  b " .nil) .nil
-    let t2 : Forest Unit := .elem () "r" [] .absent t .nil
-    selectValEq isValid s "a b" 0 (applySchema s t) = some [0] ∧
+    let s : Schema := { ctypes := [⟨none, .elementOnly, [.elem ⟨"k", .simple (.builtin .token), false, none⟩ [],
+                                     .elem ⟨"n", .simple (.builtin .int), false, none⟩ []], []⟩],
+                        elements := [⟨"r", .complex 0, false, none⟩], types := [] }
+    let k : Forest Unit := .elem () "k" [] .absent (.leaf .text " a  b " .nil) .nil
+    let t : Forest Unit := .elem () "r" [] .absent k .nil
+    let t2 : Forest Unit := .elem () "r" [] .absent (.elem () "n" [] .absent (.leaf .text "7" .nil) k) .nil
+    selectValEq isValid s "a b" 0 (applySchema s t) = some [1] ∧
     selectValEq isValid s "a b" 0 (clearF t) = some [] ∧
     selectValEq isValid s "a b" 0 (applySchema s t2) = none ∧
     selectValEq isValid s "a b" 0 (clearF t2) = some [] := by decide
